@@ -22,7 +22,13 @@ from vgi_rpc.rpc._common import _EMPTY_SCHEMA, MethodType, RpcError
 from vgi_rpc.rpc._debug import fmt_batch, wire_request_logger, wire_stream_logger, wire_transport_logger
 from vgi_rpc.rpc._transport import RpcTransport
 from vgi_rpc.rpc._types import _TICK_BATCH, AnnotatedBatch, RpcMethodInfo, rpc_methods
-from vgi_rpc.rpc._wire import _read_batch_with_log_check, _read_stream_header, _read_unary_response, _send_request
+from vgi_rpc.rpc._wire import (
+    _drain_stream,
+    _read_batch_with_log_check,
+    _read_stream_header,
+    _read_unary_response,
+    _send_request,
+)
 from vgi_rpc.shm import ShmSegment, maybe_write_to_shm
 from vgi_rpc.utils import ArrowSerializableDataclass, IpcValidation, ValidatedReader, empty_batch, new_ipc_stream
 
@@ -248,6 +254,10 @@ class StreamSession:
         with contextlib.suppress(StopIteration, RpcError, pa.ArrowInvalid, OSError):
             for _ in range(_MAX_DRAIN):
                 _read_batch_with_log_check(self._output_reader, self._on_log, self._external_config, shm=self._shm)
+        # An error batch ends the loop above before the stream's end-of-stream
+        # marker was read; consume it so the next call starts on a boundary.
+        with contextlib.suppress(StopIteration, pa.ArrowInvalid, OSError):
+            _drain_stream(self._output_reader)
 
     def cancel(self) -> None:
         """Signal the server to stop processing and discard pending work.
@@ -286,6 +296,10 @@ class StreamSession:
         with contextlib.suppress(StopIteration, RpcError, pa.ArrowInvalid, OSError):
             for _ in range(_MAX_DRAIN):
                 _read_batch_with_log_check(self._output_reader, self._on_log, self._external_config, shm=self._shm)
+        # An error batch ends the loop above before the stream's end-of-stream
+        # marker was read; consume it so the next call starts on a boundary.
+        with contextlib.suppress(StopIteration, pa.ArrowInvalid, OSError):
+            _drain_stream(self._output_reader)
 
     def __enter__(self) -> StreamSession:
         """Enter context manager."""
